@@ -578,6 +578,10 @@ fn c05_bases() -> Vec<C05Base> {
         C05Base { name: "string-validated", inner_ty: "String", as_ref_ty: "str", value: "String::from(\"ab\")", attr: "sanitize(trim, lowercase), validate(not_empty, len_char_max = 9), derive(Debug, Clone, PartialEq, Eq, Hash, AsRef, Deref, Borrow, TryFrom, Into, FromStr, Display)", strukt: "pub struct T(String);", tname: "T", mk: "T::try_new(\"ab\").unwrap()", derives: &[Tr::Deref, Tr::AsRef, Tr::Borrow], collection: false },
         C05Base { name: "vec-validated", inner_ty: "Vec<i32>", as_ref_ty: "Vec<i32>", value: "vec![1, 2]", attr: "sanitize(with = |mut v| { v.sort(); v }), validate(predicate = |v| !v.is_empty()), derive(Debug, Clone, PartialEq, AsRef, Deref, Borrow, TryFrom, Into, IntoIterator)", strukt: "pub struct T(Vec<i32>);", tname: "T", mk: "T::try_new(vec![1, 2]).unwrap()", derives: &[Tr::Deref, Tr::AsRef, Tr::Borrow, Tr::IntoIterator], collection: true },
         C05Base { name: "generic-vec", inner_ty: "Vec<i32>", as_ref_ty: "Vec<i32>", value: "vec![1, 2]", attr: "sanitize(with = |mut v| { v.sort(); v }), validate(predicate = |v| !v.is_empty()), derive(Debug, Clone, PartialEq, AsRef, Deref, Borrow, TryFrom, IntoIterator)", strukt: "pub struct T<E: Ord + Clone>(Vec<E>);", tname: "T", mk: "T::<i32>::try_new(vec![1, 2]).unwrap()", derives: &[Tr::Deref, Tr::AsRef, Tr::Borrow, Tr::IntoIterator], collection: true },
+        C05Base { name: "int-sanitize-only-tryfrom", inner_ty: "i32", as_ref_ty: "i32", value: "7", attr: "sanitize(with = |x| x.clamp(0, 100)), derive(Debug, Clone, PartialEq, TryFrom, FromStr, AsRef, Deref, Borrow, Default, Serialize, Deserialize, Arbitrary), default = 500", strukt: "pub struct T(i32);", tname: "T", mk: "T::new(7)", derives: &[Tr::Deref, Tr::AsRef, Tr::Borrow], collection: false },
+        C05Base { name: "string-sanitize-only-tryfrom", inner_ty: "String", as_ref_ty: "str", value: "String::from(\"ab\")", attr: "sanitize(trim, lowercase), derive(Debug, Clone, PartialEq, TryFrom, FromStr, AsRef, Deref, Borrow, Default, Serialize, Deserialize, Arbitrary), default = \" X \"", strukt: "pub struct T(String);", tname: "T", mk: "T::new(\"ab\")", derives: &[Tr::Deref, Tr::AsRef, Tr::Borrow], collection: false },
+        C05Base { name: "float-sanitize-only-from", inner_ty: "f64", as_ref_ty: "f64", value: "7.5", attr: "sanitize(with = |x| x.clamp(0.0, 1.0)), derive(Debug, Clone, Copy, PartialEq, From, FromStr, AsRef, Deref, Borrow, Default, Deserialize, Arbitrary), default = 5.0", strukt: "pub struct T(f64);", tname: "T", mk: "T::new(7.5)", derives: &[Tr::Deref, Tr::AsRef, Tr::Borrow], collection: false },
+        C05Base { name: "vec-sanitize-only-tryfrom", inner_ty: "Vec<i32>", as_ref_ty: "Vec<i32>", value: "vec![2, 1]", attr: "sanitize(with = |mut v| { v.sort(); v }), derive(Debug, Clone, PartialEq, TryFrom, AsRef, Deref, Borrow, IntoIterator, Default, Deserialize, Arbitrary), default = vec![3, 1]", strukt: "pub struct T(Vec<i32>);", tname: "T", mk: "T::new(vec![2, 1])", derives: &[Tr::Deref, Tr::AsRef, Tr::Borrow, Tr::IntoIterator], collection: true },
         C05Base { name: "minimal", inner_ty: "i64", as_ref_ty: "i64", value: "7", attr: "validate(predicate = |x| *x != 0)", strukt: "pub struct T(i64);", tname: "T", mk: "T::try_new(7).unwrap()", derives: &[], collection: false },
         C05Base { name: "const-fn", inner_ty: "i16", as_ref_ty: "i16", value: "7", attr: "const_fn, validate(greater = 0), derive(Debug, Deref, AsRef, Borrow)", strukt: "pub struct T(i16);", tname: "T", mk: "T::try_new(7).unwrap()", derives: &[Tr::Deref, Tr::AsRef, Tr::Borrow], collection: false },
     ]
@@ -610,6 +614,9 @@ pub fn c05_units() -> Vec<Unit> {
                 continue;
             }
             if b.name == "generic-vec" && a.name.starts_with("client-inherent") {
+                continue;
+            }
+            if a.name == "default-without-default" && b.attr.contains("default =") {
                 continue;
             }
             let subst = |t: &str| {
